@@ -9,6 +9,15 @@ COMMON_NOTE = ("Trusted base: CPython 3.12, numpy/scipy, icontract (or vlib.atta
                "(independent of molgri, see DESIGN.md section 3.2/5). Decides only the executions produced; nothing is 'verified'.")
 
 CHECKS = {
+    "C04": dict(
+        technique="runtime monitors (outcome monitors on the default folded getters of every 4-D grid object) against a polar-duality face-area oracle on the double cover (LP interior point + own 2-D hull), MC self-test of the oracle",
+        text="Every adjacency / border / distance matrix of the real rotation-grid objects is judged pair by pair: the oracle computes, for ALL "
+             "pairs of the 2N-point double cover, the area of the common face as 2*pi minus the perimeter of the spherical hull of the constraint "
+             "normals (4-variable LP for an interior direction, gnomonic projection, own monotone-chain hull; no qhull), folds by sign itself, "
+             "and requires: adjacency <=> a direct or antipodal face exists, distance = arccos|q_i.q_j|, border = the face's area when exactly "
+             "one face exists, symmetry, empty diagonal, one pattern - explicitly counting pairs through index 0 and pairs adjacent only through "
+             "the antipode. The oracle is re-validated against Monte-Carlo in every run.",
+        design_ref="5/C04"),
     "C02": dict(
         technique="runtime monitors (postconditions / outcome monitors on FullGrid.get_full_adjacency/borders/distances/get_total_volumes) against a sparse Kronecker composition of the sub-grids' own quantities",
         text="Every full-grid matrix is compared with kron(X_pos, I)*alpha + kron(I, X_rot)*beta built from the object's own position-grid and "
